@@ -1,5 +1,5 @@
 """C17 - ILP options (copies, weights, constraints) are honoured; sums come out ascending."""
-from .. import core, drive
+from .. import core, drive, models
 from .common import *
 
 OBJS = [("diff", 0), ("maxsum", 0), ("minsum", 0), ("klargest", 2), ("ksmallest", 2)]
@@ -58,6 +58,7 @@ def ctx_of(fl):
 
 def run(ck):
     q = ck.quick()
+    models.ilp_mc(ck, q)
     stim = stimuli(ck.rng, 420 if q else 20000)
     # the pinned examples
     stim += [{"vals": [10, 1], "k": 2, "o": "minsum", "kp": 0, "copies": [1, 1], "copies_scalar": True, "w": [10, 1], "cons": "none", "c": 0, "inject": ""},
